@@ -767,3 +767,163 @@ _extend("C13",
           "regexlex: message texts, ill-formed UTF-8 in the source, and the whole-parser decision that a `/` is in prefix position (covered by kernel prec) are not modelled"],
     scope="internal/js_lexer/js_lexer.go: the `/` arm of (*Lexer).Next and (*Lexer).ScanRegExp in full (validateAndStep, class loop, flags loop, duplicate-flag error, the u/v exclusivity error, SyntaxError); internal/js_parser/js_parser.go: isUnsupportedRegularExpression and the ERegExp arm of visitExprInOut (new RegExp(pattern[, flags])); internal/js_printer/js_printer.go: the ERegExp arm of printExpr (space after `/`, space between `<` and `/script`), printSpaceBeforeIdentifier (prevRegExpEnd) — against Spec/JsRegExpLiteral.lean (ECMA-262 12.9.5, flag early errors, 13.2.7.3); composed with Quote.decode_print",
     assumptions=["regexlex: the source is well-formed UTF-8; TableAgrees: Unicode ID_Continue below U+007F is [A-Za-z0-9_] and esbuild's table is Unicode's from U+007F on (the kernel passes the table values of the code points it uses); RegExp in `new RegExp` is the intrinsic; Spec.JsRegExpLiteral is the package author's reading of ECMA-262"])
+
+# ---------------------------------------------------------------- batch 7
+# commentindent (C16 / C13): re-indentation of multi-line comments
+_CI_THMS = _thms("C16CommentIndent", "never_panics panics_iff_out_of_range never_hangs final_indent_invariant not_a_comment_unchanged "
+                 "lines_preserved reindent_roundtrip idempotent_at_column_zero result_is_comment")
+_extend("C16",
+    lean_modules=["EsbuildModel.Props.C16CommentIndent"],
+    theorems=_CI_THMS,
+    kernels=[("commentindent", 4000, 60000)],
+    open=["CommentIndent: prefixes ending in U+2028/U+2029 are outside the column lemma behind reindent_roundtrip (exercised by the kernel only); the callers' range computation is tied through the kernel's js / css operations, not modelled"],
+    scope="internal/logger/logger.go (*Source).CommentTextWithoutIndent, transcribed whole: both slices of Contents, the backward loop with utf8.DecodeLastRuneInString, the range loop with start/lines, the minimum-indent loop, line[indent:], strings.Join. Tied differentially through the kernel's js/css operations: the ranges js_lexer.scanCommentText records and js_parser.parseStmtsUpTo passes, and css_lexer.consumeToEndOfMultiLineComment's commentRange",
+    assumptions=["commentindent: bytes are naturals (List Nat), the theorems hold for every list; Go's range over a string is Wtf8.goDecodeRune, utf8.DecodeLastRuneInString is transcribed from Go's unicode/utf8; InRange: 0 <= start, 0 <= len, start+len <= len(contents), start+len < 2^31 (panics_iff_out_of_range covers everything else, int32 wrap included)"])
+_extend("C13",
+    lean_modules=["EsbuildModel.Props.C16CommentIndent"],
+    theorems=_thms("C16CommentIndent", "result_is_comment reindent_roundtrip idempotent_at_column_zero"),
+    kernels=[("commentindent", 4000, 60000)])
+
+# realpath (C11): symbolic links and real paths in the resolver
+_extend("C11",
+    lean_modules=["EsbuildModel.Props.C11RealPath"],
+    theorems=_thms("C11RealPath", "realpath_deterministic realpath_idempotent evalSymlinks_correct dir_real_path_correct dir_info_exists resolved_file_is_real "
+                   "existing_file_found_and_real two_paths_one_module cache_order_irrelevant preserve_symlinks_identity"),
+    kernels=[("realpath", 2500, 13000)],
+    open=["RealPath.dir_real_path_correct / resolved_file_is_real without NoCaseClash: FALSE of the code on a case-sensitive file system (ReadDirectory keys entries by strings.ToLower(name): `Lib/` and `lib -> …` collapse into the one listed last; known finding c11-case-clash-siblings-collapse); permission errors, link chains near the 40 / 255 limits, Windows, zip / PnP are not covered"],
+    scope="internal/resolver/resolver.go: dirInfoCached, dirInfoUncached (parent lookup, ReadDirectory, absRealPath), finalizeResolve (path rewrite), Resolve→loadAsFile/loadNodeModules only for imports naming an existing file exactly (cross-check); internal/fs/filepath.go: goFilepath.evalSymlinks (POSIX side); internal/fs/fs_real.go: kind, kindOfPath, ReadDirectory (ToLower-keyed map, readdir order), EvalSymlinks; internal/fs/fs.go: Entry.Symlink, Entry.Kind, DirEntries.Get — against Spec/RealPath.lean (POSIX pathname resolution / realpath(3) on a finite entry table). Kernel runs on real temporary trees with os.Symlink through the hooks VerifDirInfo / VerifFinalizeResolve, cross-checked with filepath.EvalSymlinks",
+    assumptions=["realpath: the OS implements POSIX pathname resolution with at most 40 link expansions (Linux; modelled by osResolve); the file tree does not change during a build (memoisation in realFS.entries / Entry.needStat is not modelled; dirCache is); every path handled is a clean absolute POSIX path, names ASCII; NoCaseClash (forced; recorded defect without it); no permission errors"])
+
+# assethash (C18): names of file / copy loader outputs
+_extend("C18",
+    lean_modules=["EsbuildModel.Props.C18AssetHash"],
+    theorems=_thms("C18AssetHash", "hash_iff_template hash_at_each_position same_name_same_bytes changed_bytes_change_name same_name_same_bytes_literal_prefix "
+                   "importer_string_is_output_path emitted_path importer_string_relative_partial template_substitution_exact asset_path_is_expansion"),
+    kernels=[("assethash", 1500, 7500), ("assethashfn", 5000, 20000)],
+    open=["AssetHash.importer_string_resolves_to_output (without a public path the rewritten import path, resolved from the directory of the importing chunk, is the emitted file): not proved (needs a theory of Rel on two relative paths); proved instead: importer_string_relative_partial",
+          "AssetHash.same_name_same_bytes needs the first [hash] at the same offset in both names: without it two BUILDS can emit one hashed name with different bytes (a name or extension that contains the other file's hash text; demonstrated on the real binary, one build reports the collision): observation",
+          "AssetHash: a backslash in a POSIX file name is emitted verbatim but referenced with `/` (known finding c18-backslash-asset-name-dangling-reference)"],
+    scope="internal/bundler/bundler.go processScannedFiles: the block that creates AdditionalFiles for LoaderFile/LoaderCopy (template choice via entryPointSourceIndexToMetaIndex, HasPlaceholder, xxhash + HashForFileName, useOutputFile, PathRelativeToOutbase, SubstituteTemplate/TemplateToString + ext, Join(AbsOutputDir, relPath)); parseFile uniqueKey+IgnoredSuffix; internal/linker/linker.go substituteFinalPaths (asset piece), pathBetweenChunks, joinWithPublicPath; Compile's duplicate-output check via OutPaths.dedupe; pkg/api validateBuildOptions (outfile to outdir, templates, default asset template) via Impl/OutPathsDriver",
+    assumptions=["assethash: HashInj (the 40-bit content hash is injective on the contents considered: explicit hypothesis of the same_name theorems); namespace `file` inputs, POSIX paths, entry-point paths ASCII; tree shaking not modelled (an asset is emitted when its importer is live)"])
+
+# metaimports (C19): imports / exports / entryPoint / cssBundle / inputs[*].imports of the metafile
+_extend("C19",
+    lean_modules=["EsbuildModel.Props.C19MetaImports", "EsbuildModel.Props.C19MetaQuote"],
+    theorems=_thms("MetaImports.Props", "output_imports_exact output_imports_count output_imports_exact_css imports_emitted_aligned chunk_reference_final_path "
+                   "external_path_unchanged output_exports_exact entrypoint_cssbundle input_imports_exact input_imports_unbundled quote_valid quote_ascii"),
+    kernels=[("metaimports", 600, 26000)],
+    open=["MetaImports.json_wellformed for a whole output entry AFTER path substitution (final paths are inserted unescaped: known finding c19-final-path-substituted-unescaped); only QuoteForJSON itself is proved valid (quote_valid)",
+          "MetaImports: an unused TypeScript import that is never resolved is listed in inputs[*].imports as `external: true` (resolveResult == nil is treated as external); an unbundled build with the default format omits require() calls from outputs[*].imports although --format=cjs lists them: observations (the metafile says more / less than the emitted code, no emitted file is wrong)"],
+    scope="internal/linker/linker.go generateChunkJS / generateChunkCSS `Start the metadata` (imports from the cross-chunk prefix + JSONMetadataImports of the compile results, the file-loader entry of generateCodeForFileInChunkJS, exports, entryPoint, cssBundle); computeCrossChunkDependencies only as source of crossChunkImports / crossChunkPrefixStmts / exportsToOtherChunks; js_printer printPath and css_printer recordImportPathForMetafile (entry shape, external flag, kind); generateChunksInParallel key->final-path substitution of the metadata; internal/bundler/bundler.go processScannedFiles `Generate metadata about each import`; helpers.QuoteForJSON; MetafileFormat.MaybeRemoveWhitespace",
+    assumptions=["metaimports: print events of a chunk come from re-parsing the emitted file (js_parser / css_parser + a scanner for the runtime's __require shim) and are matched to records by path text; which statements survive tree shaking and printing is input, not modelled; strings are the code points of valid UTF-8 text; import attributes and the `format` field of inputs are not modelled"])
+
+# printkey (C13 / C01): property keys of object literals and classes
+_extend("C13",
+    lean_modules=["EsbuildModel.Props.C13PrintKey"],
+    theorems=_thms("Props.C13PrintKey", "printed_key_parses_to_same_key with_infinity_key_is_bracketed no_special_key_created_or_lost class_specials_preserved "
+                   "proto_setter_preserved shorthand_proto_without_object_extensions prefix_unambiguous prefix_unambiguous_last"),
+    kernels=[("printkey", 4000, 60000)],
+    open=["PrintKey.key_fixed_point (print∘parse∘print = print for keys): needs a model of the parser side (parseProperty key forms, PreferQuotedKey, computed-flag removal and '123'→123 in visitExpr/visitClass); not proved",
+          "PrintKey: member-level reference parser round trip (modifiers + key + tail as one PropertyDefinition / ClassElement parse): only the key, the special-name semantics and the semicolon rule are proved"],
+    scope="internal/js_printer/js_printer.go: printProperty (whole), printClass (no extends/decorators), printExpr cases EObject, EIdentifier, EImportIdentifier (namespace alias, inlined const), ENumber=printNumber (NaN/Infinity, withNesting), EBigInt, EString=printQuotedUTF16 (quote choice), ENameOfSymbol, EInlinedEnum, EFunction/printFn/printBlock with empty body, canUseShorthandProperty, printSpace/printNewline/printIndent/printSpaceBeforeIdentifier/endsWithBracedUnicodeEscape, printSemicolonAfterStatement/IfNeeded, numericKeyMustBeComputed (as used by printProperty; printBinding's use of it is not modelled); re-uses models IdentLex, Quote, NumPrint — against Spec/PropertyKey.lean (ECMA-262 PropertyName, ToPropertyKey, __proto__ / constructor / prototype static semantics)",
+    assumptions=["printkey: token view (a printed name / string / number lexes to the token with that value: cited from C13IdentPrint, C01, C01NumPrint); `NaN` / `Infinity` denote the global constants (not shadowed, not inside `with`); mangled property names are not special names; no comments, decorators, extends, LineLimit; strconv.FormatFloat text is an input (as in numprint)"])
+_extend("C01",
+    lean_modules=["EsbuildModel.Props.C13PrintKey"],
+    theorems=_thms("Props.C13PrintKey", "printed_key_parses_to_same_key no_special_key_created_or_lost proto_setter_preserved class_specials_preserved"),
+    kernels=[("printkey", 4000, 60000)])
+
+# fscache (C09): the file content cache and the modification key it trusts
+_extend("C09",
+    lean_modules=["EsbuildModel.Props.C09FsCache", "EsbuildModel.Props.C09FsWatch", "EsbuildModel.Props.C09ModKey"],
+    theorems=_thms("C09FsCache", "readfile_is_current_of_trusted readfile_is_current zero_mtime_never_usable "
+                   "watch_file_predicate_complete_of_trusted watch_file_predicate_complete ast_cache_hit_sound")
+           + _thms("C09ModKey", "check_order unix_too_new_is_gap_in_ns other_too_new_is_gap_in_ns gap_constant "
+                   "model_unix_matches_source model_other_matches_source key_fields"),
+    gen_facts=["ModKeyFacts.lean"],
+    kernels=[("fscache", 2500, 60000)],
+    open=["FsCache.watch_file_predicate_complete speaks about the LAST read of a path in a build: if one build reads the same file twice (./a.js and ./a.js?2, or two import-attribute variants), the file is edited in between and the build is still running more than modKeySafetyGap seconds later, realFS.ModKey overwrites the recorded key with the second one and the watcher idles on an output that contains the old contents (known finding c09-double-read-overwrites-watch-key; reproduced through pkg/api)",
+          "FsCache: hypothesis flip (a path seen missing and then read successfully within ONE build keeps stateFileMissing: a later deletion is not reported) and hypothesis viaCache (a direct fs.ReadFile that is never followed by FSCache.ReadFile gets its key at WatchData() time) are model-level counterexamples, not reproduced end to end",
+          "FsCache: on the `other` platforms ResFits asks for resolution <= gap - 1 s + 1 ns (sufficient; not shown necessary)"],
+    scope="internal/cache/cache_fs.go FSCache.ReadFile; internal/fs/fs.go ModKey, modKeySafetyGap, modKeyUnusable; internal/fs/modkey_unix.go and modkey_other.go modKey (stat error, zero-mtime rule, too-new rule, key fields; conditions, constant and time units regenerated into Gen/ModKeyFacts.lean by harness/cmd/extract/modkey.go); internal/fs/fs_real.go watch recording of realFS.ModKey and realFS.ReadFile for a path that is a file or missing, WatchData (stateFileNeedModKey resolution; predicates of stateFileMissing / stateFileHasModKey / stateFileUnusableModKey); internal/cache/cache_ast.go CSSCache.Parse, JSONCache.Parse, JSCache.Parse (map keyed by KeyPath, hit rule) - in a world of files (inode, mtime, mode, uid, contents), a clock, a time-stamp resolution, edits by other processes also between the stat and the read of one call",
+    assumptions=["fscache: times are unbounded integers of nanoseconds; st_size = length of the contents; only regular files or nothing at a path",
+                 "fscache: Trusted = every change of a path leaves a file that is too new at that moment (mtime + gap > clock), or (unix) has an inode number the path never held, or keeps contents and inode with a time stamp that does not go backwards; the clock never goes backwards. Operational form: write/create/replace/touch stamp the clock rounded down to the resolution, 0 < resolution <= gap, no utimes to the past, no rename of an old file over the path, no clock set-back - each part shown necessary by an example",
+                 "fscache: the scripted fs.FS of the `hist` operations transcribes modKey in the harness; the real modKey is compared with the model by the `probe` and `wd` operations on real temp files (real clock, margins >= 100 ms / 1 s)",
+                 "fscache: parse is a function of (source, options) and Equal options parse alike (C09.js_cache_key_covers / css_cache_key_covers)"])
+
+# privlower (C05): private names lowered to WeakMap / WeakSet helpers
+_extend("C05",
+    lean_modules=["EsbuildModel.Props.C05Private"],
+    theorems=_thms("PrivLower", "private_get_same_outcome private_in_same_outcome private_set_same_outcome private_add_same_outcome brand_check_order_assign "
+                   "brand_check_order_compound brand_check_order_logical brand_check_order_call spec_brand_check_order_assign spec_brand_check_order_compound "
+                   "weakmap_isolation_set weakmap_isolation_add weakmap_isolation_shadowing"),
+    kernels=[("privlower", 1500, 8000), ("privlowersem", 300, 3000)],
+    open=["PrivLower.lowered_private_same_outcome (for ALL expressions / programs / fuel the lowered run equals the source run): only the operation-level cases are proved (missing: induction over Expr threading capture temporaries, preservation of Inv, fuel induction)",
+          "PrivLower.init_order as a theorem; the order is compared structurally (privlower) and behaviourally with Node (privlowersem) only; guard_transparent is not proved",
+          "PrivLower: FALSE of the code, recorded as known findings: a class evaluated more than once shares one hoisted WeakMap (brands of the copies merge); an identifier base is re-read after a private getter ran (`o.#g ||= v`, `o.#g?.()`); `#x in o` inside a computed key of the same class throws; a non-callable private member throws before its arguments are evaluated"],
+    scope="js_parser_lower_class.go lowerPrivateBrandCheck/lowerPrivateGet/lowerPrivateSet/lowerPrivateSetUnOp/lowerPrivateSetBinOp and the placement decisions of lowerClass (WeakMap per field, one WeakSet per class+placement, __privateAdd(this,_C_instances) first, fields in source order, static brand then static fields, `this`->class in static initializers, nested class expressions); js_parser.go captureValueWithPossibleSideEffects and the private-name branches of EIndex/EBinary(= op= ||= &&= ??= in)/EUnary(++ --)/ECall/ETemplate visitors; js_parser_lower.go logical-assignment private branch; runtime.go __privateIn/__privateGet/__privateAdd/__privateSet/__privateMethod/__privateWrapper/__accessCheck (text pinned, compared by the kernel) — against Spec/JsPrivate.lean (ECMA-262 PrivateFieldGet/Set/Add, PrivateMethodOrAccessorAdd, PrivateBrandCheck)",
+    assumptions=["privlower: every class definition is evaluated at most once (Private Name = (class, name)); no computed member keys; probe functions do not call back into the program; ToPrimitive runs no user code; __publicField on model objects = define own data property; temporaries are numbered by one counter per body (the kernel renumbers by first appearance)"])
+
+# tsclass (C06): TypeScript / ES class lowering (parameter properties, fields, the super() shim)
+_extend("C06",
+    lean_modules=["EsbuildModel.Props.C06TsClass"],
+    theorems=_thms("C06TsClass", "each_super_reaches_its_own_base each_class_is_well_scoped shim_not_used_when_found_at_top_level inserted_statements_follow_super_statement "
+                   "shim_used_when_called_twice shim_used_when_not_at_top_level no_shim_without_base_class publicField_is_define "
+                   "parameter_property_statements_mean_what_typescript_defines typed_equals_untyped_partial"),
+    kernels=[("tsclass", 2000, 30000), ("tsclasssem", 500, 8000)],
+    open=["TsClass.lowered_class_same_trace (run m e = run Mode.js (lowerProgram m e) for source programs outside the four recorded defects): NOT proved; tested by kernel tsclasssem against Node",
+          "TsClass.shim_forms_same_trace (arrow form and inline form of insertStmtsAfterSuperCall mean the same) and typed_equals_untyped for derived classes, parameter defaults and classes with instance fields: not proved",
+          "TsClass: FALSE of the code, recorded as known findings (c06-super-*): `return super()` / `if (super())` / `throw super()` as the LAST thing of a statement head loses the field initialisers; `super()` in a parameter default refers to `__super` out of scope; a constructor that returns an object without calling super() now throws; `super()` inside a nested class's heritage or computed key is not (or wrongly) shimmed"],
+    scope="internal/js_parser/js_parser.go visitClass (p.superCtorRef save/override/restore incl. the extends expression, lowerClass afterwards) and the ESuper case of the ECall visit; js_parser_lower_class.go computeClassLoweringInfo, lowerClass -> processProperties/analyzeProperty/lowerField/lowerStaticBlock/lowerMethod (parameter properties), insertInitializersIntoConstructor, insertStmtsAfterSuperCall (SExpr/SReturn/SThrow/SIf), findFirstTopLevelSuperCall, finishAndGenerateCode for class EXPRESSIONS; loader ts, no minify, no decorators/private names/computed keys/auto-accessors/keepNames — against Spec/TsClass.lean (ES2022 class evaluation order + TypeScript parameter properties / useDefineForClassFields)",
+    assumptions=["tsclass: no dead code (conditions are never literals, nothing follows return/throw); ES2015 and ES2021 behave alike for this fragment; a constructor never returns an object of another class; TypeScript semantics as read from the Handbook, the TSConfig reference and tsc's emit order (tsc not installed), Node 20 validates the JavaScript part; answers compared modulo comma nesting and with __super symbols renumbered by first appearance"])
+
+# tsns (C06): TypeScript namespaces and enums
+_extend("C06",
+    lean_modules=["EsbuildModel.Props.C06TsNs"],
+    theorems=_thms("C06TsNs", "uninstantiated_emit_nothing uninstantiated_emit_nothing_module uninstantiated_file_emits_nothing dotted_counterexample "
+                   "declared_once_partial second_block_reuses_binding minified_joins_preserve_semantics closure_argument_spellings_agree"),
+    kernels=[("tsns", 2000, 40000), ("tsnsrun", 600, 12000)],
+    open=["TsNs.reference_resolution_matches_ts (every bare identifier is compiled to the binding / ns.member / closure argument / global that TypeScript's resolveName designates) and namespace_object_equal (runJs (compile P) = Spec.run P: outcome, heap with key order, bindings, trace): stated in the header of Props/C06TsNs.lean with the hypotheses found so far, NOT proved; tested by kernel tsnsrun (model and specification against Node) on programs outside the five recorded differences",
+          "TsNs.declared_once for whole programs (only the closure generator's step is proved)",
+          "TsNs: FALSE of the code, recorded as known finding c06-namespace-enum-hazards: nested `namespace N` then `enum N` hits the TDZ of the `let`; a sibling block's export named like the namespace resolves to the closure argument; a module-level enum is bound only after its closure returns; `namespace A.B { export type T = number }` is not dropped (and then clashes with `const A`); an enum initialiser referring to an enum in an EARLIER sibling namespace is not a constant"],
+    scope="internal/js_parser/ts_parser.go parseTypeScriptNamespaceStmt, parseTypeScriptEnumStmt, getOrCreateExportedNamespaceMembers, generateClosureForTypeScriptNamespaceOrEnum, generateClosureForTypeScriptEnum; js_parser.go declareSymbol/canMergeSymbols (kinds var/let/const/function/namespace/enum), findSymbol, handleIdentifier (reads), the namespace-member case of maybeRewritePropertyAccess, visitStmts' enum pre-pass, visitAndAppendStmt cases SLocal/SFunction/SEnum/SNamespace, mangleStmts joins SExpr+SExpr / SExpr+SReturn / SLocal+SLocal; js_ast FoldBinaryOperator(+), FoldStringAddition, KnownPrimitiveType, ExprCanBeRemovedIfUnused on the model's forms — against Spec/TsNamespaces.lean (instantiation, merged symbols, resolveName, constant enum members, run-time semantics)",
+    assumptions=["tsns: numbers are integers below 2^53 in magnitude; every block body runs at most once (no loops; functions without parameters or locals); property names are never inherited ones; tsnsrun compares the specification only on programs outside the five reported differences; tsc is not installed: the TypeScript side cites checker / binder / transformer rules"])
+
+# ctxlock (C20): the lock level of a build context
+_extend("C20",
+    lean_modules=["EsbuildModel.Props.C20Lock"],
+    theorems=_thms("C20Lock", "facts_match_model held_table_closed entries_free locks_never_nested mutex_not_held_while_waiting "
+                   "only_wait_under_mutex goroutines_start_without_mutex threads_end_without_mutex held_mutex_name_stable"),
+    gen_facts=["CtxLockFacts.lean"],
+    kernels=[("ctxlock", 15, 1500)],
+    open=["C20Lock.no_deadlock (every reachable state: no panic, and all threads finished or some thread inside a call can step; waits-for ranking): stated in Props/C20Lock.lean, NOT proved",
+          "C20Lock.held_iff (dynamic form of the held-mutex table), termination_under_fairness, dispose_waits_for_build, cancel_waits_for_build, joiners_get_result: stated, NOT proved; the dynamic behaviour of the model is tied to the code by the conformance kernel only",
+          "C20Lock: event-stream clients (channel send in broadcastBuildResult under apiHandler.mutex) are excluded by assumption; with a client that stops reading the context deadlocks (known finding c20-sse-client-stops-reading-deadlock)"],
+    scope="pkg/api/api_impl.go internalContext.rebuild / Rebuild / activeBuildOrRecentBuildOrRebuild / Watch (+ its goroutine and the watcher's rebuild closure) / Cancel / Dispose; pkg/api/watcher.go start (+ polling goroutine) / stop / setWatchData / tryToFindDirtyPath; pkg/api/serve_other.go Serve (+ server goroutine, first-build goroutine, closures handler.rebuild and handler.stop), hackListener.Accept, broadcastBuildResult: every Lock/Unlock/defer Unlock of the four mutexes, WaitGroup Add/Done/Wait, read/write of didDispose, activeBuild, recentBuild, watcher, handler, the two shouldStop flags, build.state, every go statement, in source order (regenerated skeleton = model skeleton); rebuildImpl, http.Server.Serve/Close, CancelFlag.Cancel are library models",
+    assumptions=["ctxlock: no server-sent-event client is connected; plugin callbacks do not call methods of their own context; defer Unlock is the first or second statement of its function (treated as an epilogue of every return); the conformance search executes thread-local steps eagerly, never schedules the 250 ms recentBuild goroutine and generates no HTTP connections (affects completeness only: every `ok` is a checked model trace); heldTab is a pasted certificate checked by allPointsOK_true"])
+
+# parwrites (C08): goroutines and what they write
+_extend("C08",
+    lean_modules=["EsbuildModel.Props.C08ParWrites"],
+    theorems=_thms("ParWrites", "disjoint_slot_writers_commute sequential_is_a_schedule neighbour_read_is_schedule_dependent "
+                   "mutex_commutative_accumulator mutex_map_insert_distinct_keys map_insert_same_key_is_schedule_dependent "
+                   "channel_collect_then_sort first_writer_wins_keeps_first_arrival first_writer_wins_is_schedule_dependent "
+                   "append_under_mutex_keeps_arrival_order facts_match_review review_complete no_unreviewed_first_writer_wins "
+                   "no_goroutine_uses_a_shared_loop_variable review_verdicts"),
+    gen_facts=["ParWrites.lean"],
+    kernels=[("parwrites", 40, 1000)],
+    open=["ParWrites F1 (diagnostics order; known finding c08-equal-messages-keep-arrival-order): messages that agree on (location, kind, text) keep ARRIVAL order (sort.Stable in the logger): two plugins whose parallel onStart callbacks return the same text are ordered by the schedule",
+          "ParWrites F2 (diagnostics location; known finding c08-load-error-blames-first-importer): a message about LOADING a file that several modules import carries the import statement of whichever importer the scanner handled first",
+          "ParWrites: callees of goroutine bodies are not analysed; they are listed per site (`calls`) and reviewed by hand"],
+    scope="every `go` statement of internal/linker, bundler, graph, renamer, js_printer, css_printer, js_parser, css_parser, resolver, cache, runtime and pkg/api (without serve_*.go, watcher.go): 25 sites (bundler.go 9, linker.go 9, graph.go 1, renamer.go 1, api_impl.go 5), found by the type-checked extractor harness/cmd/extract/parwrites.go; for `go f(..)` the body of f (generateChunkJS/CSS, generateCodeForFileInChunkJS, generateIsolatedHash, parseFile); each site's writes to captured variables classified (own slot / under mutex / atomic / channel / other) and tied to a reviewed table by facts_match_review",
+    assumptions=["parwrites: a step is atomic (a write to a location no other goroutine touches before the join, a mutex section, a channel send, a sync/atomic op); data races are excluded by the slot discipline the extractor checks, not modelled; distinct slots hold distinct objects; alias analysis is intra-body and syntactic; range VALUES used as slot index are distinct (reviewed)"])
+
+# stmtmangle (C03): the statement-level minifier
+_extend("C03",
+    lean_modules=["EsbuildModel.Props.C03StmtMangle"],
+    theorems=_thms("MiniJS", "mangleIf_equiv mangleIfShape_equiv dead_code_keeps_hoisted_declarations dead_var_loses_initialisers dead_list_keeps_hoisted_declarations "
+                   "expr_stmts_merge_equiv expr_return_merge_equiv expr_throw_merge_equiv expr_if_absorb_equiv unused_expr_stmt_equiv appendBody_equiv"),
+    kernels=[("stmtmangle", 8000, 60000)],
+    open=["StmtMangle.mangleStmts_preserves_completion (execBody (visitFnBody ss) = execBody ss for every fuel): NOT proved as a whole. Proved: each rewrite of the main loop, mangleIf as a whole, the hoisted names of shouldKeepStmtInDeadControlFlow. Not proved: the loop invariant of mangleStmts (result stack + dead flag), the implicit-jump rule, if/else chain flattening, finalize, label removal, the block/loop/label cases of the visitor; mangleFor_equiv; wf preservation of MangleIfExpr (hypothesis condWf of mangleIf_equiv); the whole is tied by the kernel and its end-to-end witnesses",
+          "StmtMangle.idempotent: FALSE of the code (`!u4; throw v5(); return u4();` needs two passes, `L0: { return a.p; break L0 }` keeps its label for one pass; behaviour equal): observation"],
+    scope="internal/js_parser/js_parser.go: mangleStmts (without the inlined-constant prepass and the single-use let/const substitution), mangleIf, mangleFor, dropFirstStatement, stmtsToSingleStmt, appendIfOrLabelBodyPreservingScope, shouldKeepStmt(s)InDeadControlFlow incl. the in-place trimming order, stmtCaresAboutScope, isJumpStatement, jumpStmtsLookTheSame, visitStmts (dead-code filter), visitSingleStmt, visitLoopBody, and the SEmpty/SExpr/SLocal/SReturn/SThrow/SBreak/SContinue/SBlock/SIf/SFor/SWhile/SDoWhile/SLabel/SFunction cases of visitAndAppendStmt; driven through js_parser.Parse on generated function bodies — against Spec/MiniJSStmt.lean (completion records, var hoisting, block scope, labels, loops with fuel)",
+    assumptions=["stmtmangle: BoundOK and the typeof-flag invariant wf, as in C03MiniJS; TDZ: a let/const binding is written when its declaration runs (esbuild's documented assumption: `{ x; let x = 1 }` loses its ReferenceError); function declarations are opaque; visitExpr is the identity on the generated expressions; the branch of an if is not a declaration"])
